@@ -753,8 +753,12 @@ def pncbo(op, ifile1, ifile2, coordkeys=None, verbose=0):
             unit1 = getattr(in1var, 'units', 'unknown')
             unit2 = getattr(in2var, 'units', 'unknown')
             propd['units'] = '(%s) %s (%s)' % (unit1, op, unit2)
-            outval = np.ma.masked_invalid(
-                eval('in1var[...] %s in2var[...]' % op).view(np.ndarray))
+            # keep the operands' masks (and numpy.ma's domain masks) and
+            # accept 0-d results, but drop the variable subclass
+            outval = np.ma.array(
+                eval('in1var[...] %s in2var[...]' % op), subok=False)
+            outval = np.ma.masked_where(
+                ~np.isfinite(np.ma.getdata(outval)), outval)
             outvar = tmpfile.createVariable(
                 k, in1var.dtype.char, in1var.dimensions, fill_value=-999,
                 values=outval)
